@@ -41,11 +41,17 @@ func init() {
 					}
 				}
 			}
+			if name == "Concat" {
+				// long input lists of the variadic operator
+				for _, n := range []int{7, 8, 9, 16, 17} {
+					p.Jobs = append(p.Jobs, Job{Harness: "opset13.H_C15_gate", Case: map[string]interface{}{"op": name, "n": n, "nilmask": 0, "spare": n % 2}})
+				}
+			}
 			p.Jobs = append(p.Jobs, Job{Harness: "opset13.H_C15_registry", Case: map[string]interface{}{"op": name}})
 		}
 		p.Jobs = append(p.Jobs, Job{Harness: "opset13.H_C15_unknown", Case: map[string]interface{}{}})
 		p.Bounds = []string{
-			"all registered operators (names and arities read from /repo on this run) x input count 0..max+2 (Concat 0..4) x nil at every subset of the optional positions x list passed with/without spare capacity holding stale tensors",
+			"all registered operators (names and arities read from /repo on this run) x input count 0..max+2 (Concat 0..4 and 7, 8, 9, 16, 17) x nil at every subset of the optional positions x list passed with/without spare capacity holding stale tensors",
 			"the element type at every non-nil position is ONE symbolic variable over the 14-type universe: each case decides 14^k type combinations in a single run",
 			"registry: per operator, fingerprints of instances before/after Init of another instance with a representative attribute set; unknown names: an opaque string unequal to every literal, plus near-miss spellings",
 		}
